@@ -1740,10 +1740,20 @@ L:
 }
 
 func (c *compiler) optimizeCodeOps() {
+	targets := make(map[int]bool)
+	for _, code := range c.codes {
+		switch code.op {
+		case opjump, opjumpifnot, opfork, opforktrybegin, opforkalt:
+			targets[code.v.(int)] = true
+		}
+	}
 	for i, next := len(c.codes)-1, (*code)(nil); i >= 0; i-- {
 		code := c.codes[i]
 		switch code.op {
 		case oppush, opdup, opload:
+			if targets[i+1] {
+				break // the next instruction is also reached by a jump
+			}
 			switch next.op {
 			case oppop:
 				if verifOptOff(optPeepPop) {
